@@ -254,3 +254,11 @@ func init() {
 	}
 	slog.SetDefault(slog.New(slog.DiscardHandler))
 }
+
+// Tier returns the tier of this batch (quick unless VERIF_TIER says otherwise).
+func Tier() string {
+	if v := os.Getenv("VERIF_TIER"); v == "thorough" {
+		return v
+	}
+	return "quick"
+}
